@@ -122,6 +122,20 @@ def run(ctx):
                     ob.require(len(nl) >= 1, 'constructor can return a wallet', fi.where)
                     same_wallet(ob, ev, v, f, cls, exp, '%s builds the wallet of the BIP39/BIP32 master for its arguments '
                                 '(password, mnemonic and network forwarded unchanged)' % name, fi.where)
+            # the seed routes must not refuse a seed that BIP32 allows (16..64 bytes, valid left half): any refusal has to
+            # depend on the seed's length being outside that range or on the key being invalid
+            fi = p.get_function('base_wallet.BaseWallet.from_bip39_seed_bytes')
+            with ctx.obligation('C03.CTOR', 'seed routes accept every valid seed', cfg, fi.where) as ob:
+                mk_, mc_ = SP.master(seedb)
+                L_ = T.len_(seedb)
+                valid = [T.raw_op('VALID_SK', mk_), T.not_(T.lt(L_, T.const(16))), T.lt(L_, T.const(65))]
+                for name, args in (('base_wallet.BaseWallet.from_bip39_seed_bytes', [T.clsref(cls), seedb, tn]),
+                                   ('bip32.PrvKeyNode.master_key', [T.clsref(PRV), seedb, tn])):
+                    v, f = ev.call_function(name, args)
+                    bad = spurious_refusals(ev, v, valid)
+                    ob.require(not bad, '%s refuses a seed that BIP32 allows (16-64 bytes, valid master key)' % name.split('.', 1)[1],
+                               p.get_function(name).where,
+                               found=['%s when %s' % (e, ' and '.join(T.show(c, maxdepth=4) for c in cs_) or 'always') for e, cs_ in bad][:3])
             # ... "or from the resulting master extended private key": the serialised master parsed back
             fi = p.get_function('base_wallet.BaseWallet.from_extended_key')
             with ctx.obligation('C03.CTOR', 'BaseWallet.from_extended_key', cfg, fi.where) as ob:
